@@ -16,6 +16,7 @@ import ClairModel.Proofs.CvssPrint2
 import ClairModel.Proofs.CvssPrint4
 import ClairModel.Proofs.CvssEnum
 import ClairModel.Proofs.CvssTemporal
+import ClairModel.Proofs.CvssTemporal2
 
 namespace ClairModel.Props.C18
 open ClairModel ClairModel.Cvss ClairModel.CvssSpec ClairModel.Gen.Cvss
@@ -93,6 +94,18 @@ theorem v30_temporal_score_eq_spec {av ac pr ui s c i a e rl rc : Nat}
     score3 (mk3t 0 av ac pr ui s c i a e rl rc) =
       (base3 0 av ac pr ui s c i a).bind fun b => temporal3 0 b e rl rc :=
   v3_temporal_facts 0 (Or.inl rfl) sweep_v30 temporalTable_0 hav hac hpr hui hs hc hi ha he hrl hrc
+
+/-- base × temporal, v2 (all 72 900 vectors; `e`, `rl`, `rc` are the packed
+    bytes `ParseV2` stores): `V2.Score` evaluated exactly equals
+    round_to_1_decimal(BaseScore × E × RL × RC) over the published base score
+    (the float64 evaluation deviates on 126 of them — finding v2-float-tie) -/
+theorem v2_temporal_score_eq_spec {av ac au c i a e rl rc : Nat}
+    (hav : av ∈ g2 0) (hac : ac ∈ g2 1) (hau : au ∈ g2 2) (hc : c ∈ g2 3) (hi : i ∈ g2 4) (ha : a ∈ g2 5)
+    (he : e ∈ pk2 6) (hrl : rl ∈ pk2 7) (hrc : rc ∈ pk2 8) :
+    score2 (mk2t av ac au c i a e rl rc) =
+      (base2 [av] [ac] [au] [c] [i] [a]).bind fun b =>
+        temporal2 b (v2Unparse 6 e) (v2Unparse 7 rl) (v2Unparse 8 rc) :=
+  v2_temporal_facts hav hac hau hc hi ha he hrl hrc
 
 /-! ### tables (re-decided against the regenerated `Gen.Cvss` on every run) -/
 
